@@ -175,6 +175,19 @@ class FindScopes(FindNodes):
             ret = self.visit(i, ret=ret, ancestors=ancestors, **kwargs)
         return ret or self.default_retval()
 
+    def visit_TypeDef(self, o, **kwargs):
+        """
+        Custom handler for :any:`TypeDef` nodes that does not traverse the
+        body but returns the list of ancestors if :data:`o` is :data:`match`.
+        """
+        ret = kwargs.pop('ret', self.default_retval())
+        ancestors = kwargs.pop('ancestors', []) + [o]
+
+        if self.rule(self.match, o):
+            ret.append(ancestors)
+        # Do not traverse children (i.e., TypeDef's body)
+        return ret or self.default_retval()
+
 
 class SequenceFinder(Visitor):
     """
